@@ -149,15 +149,15 @@ func (t *pty) goType() reflect.Type {
 // ---- values ----
 
 type pval struct {
-	k      pkind
-	b      bool
-	i      int64  // signed kinds
-	u      uint64 // unsigned kinds and float bits
-	s      []byte
-	isnil  bool
-	elem   *pval   // pointer target
-	elems  []*pval // struct fields, slice elements
-	keys   []*pval // map keys (parallel to elems)
+	k     pkind
+	b     bool
+	i     int64  // signed kinds
+	u     uint64 // unsigned kinds and float bits
+	s     []byte
+	isnil bool
+	elem  *pval   // pointer target
+	elems []*pval // struct fields, slice elements
+	keys  []*pval // map keys (parallel to elems)
 }
 
 func (v *pval) String() string {
@@ -377,7 +377,7 @@ func (g *pgen) fieldType(depth int) *pty {
 	case r < 45:
 		return g.scalar()
 	case r < 50:
-		return &pty{k: kArr, n: pick([]int{0, 1, 3, 7, 8, 9, 16, 20})}
+		return &pty{k: kArr, n: pick([]int{0, 1, 2, 3, 4, 5, 6, 7, 8, 9, 10, 12, 14, 15, 16, 17, 20, 22, 30})}
 	case r < 60:
 		return &pty{k: kPtr, elem: g.elemType(depth + 1)}
 	case r < 72 && depth < g.maxDepth:
@@ -400,7 +400,7 @@ func (g *pgen) elemType(depth int) *pty {
 		t := g.scalar()
 		return t
 	case r < 65:
-		return &pty{k: kArr, n: pick([]int{0, 1, 4, 8, 12})}
+		return &pty{k: kArr, n: pick([]int{0, 1, 2, 4, 6, 8, 12, 14})}
 	case r < 85 && depth < g.maxDepth:
 		return g.structType(depth + 1)
 	case r < 92 && depth < g.maxDepth:
@@ -568,10 +568,19 @@ func (g *pgen) value(t *pty, depth int) *pval {
 		}
 	case kArr:
 		v.s = make([]byte, t.n)
-		if !zeroish {
-			for i := range v.s {
-				if rndn(3) == 0 {
-					v.s[i] = byte(rnd())
+		if !zeroish && t.n > 0 {
+			switch rndn(4) {
+			case 0: // a single non-zero byte, most often near the end (the zero test of the encoder works word by word)
+				pos := t.n - 1 - rndn(min(t.n, 3))
+				if rndn(4) == 0 {
+					pos = rndn(t.n)
+				}
+				v.s[pos] = byte(1 + rndn(255))
+			default:
+				for i := range v.s {
+					if rndn(3) == 0 {
+						v.s[i] = byte(rnd())
+					}
 				}
 			}
 		}
